@@ -1,1 +1,16 @@
 import Lmd.Props.C09
+#print axioms Lmd.C09.getFloat_total
+#print axioms Lmd.C09.coerce_no_crash
+#print axioms Lmd.C09.coerceRow_no_crash
+#print axioms Lmd.C09.synced_no_crash
+#print axioms Lmd.C09.getVal_no_crash_local
+#print axioms Lmd.C09.getVal_no_crash_ref
+#print axioms Lmd.C09.getVal_virt_crash_iff
+#print axioms Lmd.C09.getVal_crash_iff
+#print axioms Lmd.C09.stats_no_crash
+#print axioms Lmd.C09.stats_no_crash_counted
+#print axioms Lmd.C09.stats_no_crash_local
+#print axioms Lmd.C09.parse_ok_wellformed
+#print axioms Lmd.C09.command_headers_guarded
+#print axioms Lmd.C09.session_ends
+#print axioms Lmd.C09.init_total
